@@ -116,9 +116,21 @@ def run(ctx):
     ra = init.functions.get("register_awkward")
     if ra is None:
         raise AnalysisError("anchor register_awkward missing")
-    upd = [unparse(n) for n in ast.walk(ra) if isinstance(n, ast.Call) and unparse(n.func).endswith("behavior.update")]
-    ctx.ob("C20.registry-writers", "register_awkward", upd == ["awkward.behavior.update(vector.backends.awkward.behavior)"],
-           f"register_awkward updates: {upd}", None, "src/vector/__init__.py")
+    upd_calls = [n for n in ast.walk(ra) if isinstance(n, ast.Call) and unparse(n.func).endswith("behavior.update")]
+    local = {}
+    for st in ra.body:
+        if isinstance(st, ast.Assign) and len(st.targets) == 1 and isinstance(st.targets[0], ast.Name):
+            local.setdefault(st.targets[0].id, []).append(unparse(st.value))
+
+    def _resolved(a):
+        t = unparse(a)
+        if isinstance(a, ast.Name) and len(local.get(a.id, [])) == 1:
+            t = local[a.id][0]
+        return t
+
+    upd = [(unparse(n.func), [_resolved(a) for a in n.args], [k.arg for k in n.keywords]) for n in upd_calls]
+    ctx.ob("C20.registry-writers", "register_awkward", upd == [("awkward.behavior.update", ["vector.backends.awkward.behavior"], [])],
+           f"register_awkward updates: {upd}; expected one awkward.behavior.update(vector.backends.awkward.behavior)", None, "src/vector/__init__.py")
 
     # ordering (typestate): the flag is raised only after the registry update has returned, on every path
     ctx.rule("C20.register-order", "in register_awkward the store `_awkward_registered = True` is a top-level statement that follows the top-level `awkward.behavior.update(...)` statement "
